@@ -35,7 +35,7 @@ TInit ==
   /\ st = Traces[tid][1].st
   /\ file = Traces[tid][1].file
   /\ bg = Traces[tid][1].bg
-  /\ failR = (st = "FAILED")
+  /\ failR = Traces[tid][1].failR
   /\ abortR = (st = "ABORTED")
   /\ bgCancelled = FALSE
   /\ holder = 0
